@@ -379,8 +379,16 @@ impl Ctx {
     }
     /// Pick a work amount by tier.
     pub fn n(&self, quick: u64, thorough: u64) -> u64 {
-        let base = if self.quick() { quick } else { thorough };
+        let base = if self.quick() { (quick as f64 * quick_boost(self.id)) as u64 } else { thorough };
         ((base as f64 * self.scale) as u64).max(1)
+    }
+    /// Pick a size parameter (history length, sweep bound) by tier; never boosted.
+    pub fn sz(&self, quick: u64, thorough: u64) -> u64 {
+        if self.quick() {
+            quick
+        } else {
+            thorough
+        }
     }
     pub fn set_rule(&self, rule: &str) {
         *self.rule.lock().unwrap() = rule.to_string();
@@ -533,7 +541,7 @@ impl Ctx {
             return;
         }
         let t0 = Instant::now();
-        let cases = ((cases as f64 * self.scale) as u64).max(1);
+        let cases = cases.max(1);
         let workers = (self.threads as u64).min((cases + 31) / 32).max(1);
         let per = (cases + workers - 1) / workers;
         let stop = AtomicBool::new(false);
@@ -928,6 +936,31 @@ fn one_line(s: &str) -> String {
         t.push_str("...");
     }
     t
+}
+
+/// Per-property multiplier for the quick tier's generated-case counts (fixed work; tuned so that a
+/// quick run takes roughly 5-25 s on 16 cores).
+fn quick_boost(id: &str) -> f64 {
+    match id {
+        "C01" => 8.0,
+        "C02" => 10.0,
+        "C03" => 12.0,
+        "C04" => 8.0,
+        "C05" => 3.0,
+        "C07" => 3.0,
+        "C08" => 10.0,
+        "C09" => 3.0,
+        "C10" => 8.0,
+        "C12" => 3.0,
+        "C13" => 8.0,
+        "C14" => 5.0,
+        "C15" => 8.0,
+        "C17" => 2.0,
+        "C18" => 3.0,
+        "C19" => 3.0,
+        "C20" => 3.0,
+        _ => 1.0,
+    }
 }
 
 /// Map a 16-bit generated index monotonically onto `0..len` (shrinks towards 0).
